@@ -12,6 +12,17 @@ the polynomial the implementation returned is compared with the exact symbolic d
     sum|terms|) plus a central-difference cross-check of the source itself (relative 1e-6), at positive
     points only.
 
+In addition every derivative step is judged EXACTLY, term by term, whatever the size of the numbers (no sampling, so
+a rule that goes wrong only for a huge / tiny coefficient, an exponent next to 1, an exponent beyond 2^16 or the
+65 537th coefficient is seen with its input): dense type `d_(k-1) = k c_k` (one rounding) at every position; sparse type
+- for each source term containing the variable with power p (in order): coefficient `c p` (one rounding), power
+`p - 1` (one rounding), the variable gone exactly when p = 1, every other factor untouched bit for bit; nothing else in
+the result (a term whose coefficient would be 0 may be absent).  Dense polynomials longer than 200 coefficients are
+judged by this alone; their final evaluation when the non-zero terms are few and every power stays inside
+[2^-900, 2^900].  The univariate entry point on a polynomial with several variables must answer with an error.
+The harness adds (c03.rs): the closure clause and the agreement of the duplicated entry points (`simple_derivative`,
+`partial_derivative` with owned / borrowed names, slice / Deref forms, against the trait methods).
+
 Domain (DESIGN.md section 5): a variable takes positive values when one of its exponents - in the source
 or in the returned polynomial - is not an integer, non-zero values when one is negative, any value
 (0 included) otherwise.  Structural clauses of the statement are checked as well: same kind, terms
@@ -29,7 +40,11 @@ U = Fraction(1, 2 ** 53)
 RULE = ("polynomials are obtained by running the real parsers (SimplePolynomial::parse / IntermediatePolynomial::parse) "
         "on grammar-generated texts (0-5 terms, 0-3 variables per term in any order, repeated variables, all coefficient "
         "forms, zero/negative/fractional exponents, constants) after a fixed list of corner texts; requests deriv / pderiv "
-        "(variable present, absent, multi-letter, empty) / chain / chainm of length <= 3; non-trivial = the model's answer "
+        "(variable present, absent, multi-letter, empty, other case) / chain / chainm of length <= 3 and derivative chains of "
+        "length 4-7; hardening texts: coefficients of extreme magnitude / length, exponents up to 2^32 and next to 1 / 0 at "
+        "distances 1e-5..2^-52, repeated variables whose powers add up to 1 / 0 / -1, upper/lower-case pairs and every "
+        "letter, 6-40 terms, 4-12 variables per term, dense lengths 6..70 / 255..257 / 511..1025 / 65537, cancelled leading "
+        "terms; evaluation points of every scale; non-trivial = the model's answer "
         "contains a polynomial with at least one term (not an error, not the zero polynomial only); distinct = distinct "
         "request lines")
 
@@ -166,6 +181,14 @@ def finite(x):
     return not (math.isnan(x) or math.isinf(x))
 
 
+BIG = 200        # dense polynomials longer than this are judged coefficient-wise only (exact), not by sampling values
+LO, HI = Fraction(1, 2 ** 900), Fraction(2 ** 900)
+
+
+def inrange(x):
+    return x == 0 or LO <= abs(x) <= HI
+
+
 OWN = "⟨var⟩"   # name used for the variable of a SimplePolynomial without one
 
 
@@ -179,9 +202,12 @@ def sparse(p):
     out = []
     if p[0] == "S":
         v = own_var(p)
+        big = len(p[2]) > BIG
         for k, c in enumerate(p[2]):
             if not finite(c):
                 return None
+            if big and c == 0:
+                continue              # adding an exact zero changes no value
             out.append((Fraction(c), {v: Fraction(k)} if k > 0 else {}))
         return out
     for c, vs in p[1]:
@@ -230,17 +256,74 @@ def deriv_ref(sp, v):
     return out
 
 
-def term_values_exact(sp, pt):
+def dec_pow(x, e):
+    """x > 0, rational e: 60-digit reference through `decimal`; None when far outside the double range"""
+    import decimal
+    ctx = decimal.Context(prec=70, Emax=decimal.MAX_EMAX, Emin=decimal.MIN_EMIN)
+    dx = ctx.divide(decimal.Decimal(x.numerator), decimal.Decimal(x.denominator))
+    de = ctx.divide(decimal.Decimal(e.numerator), decimal.Decimal(e.denominator))
+    try:
+        r = ctx.power(dx, de)
+    except decimal.DecimalException:
+        return None
+    if not r.is_finite() or r == 0 or not (-400 < r.adjusted() < 400):
+        return None
+    return Fraction(r)
+
+
+def pow_int(b, k):
+    """b^k (k integer): exact while affordable, else a 60-digit reference (relative error 1e-60, far below every
+    tolerance used here); None when the result is far outside the double range"""
+    if k == 0 or b == 1:
+        return Fraction(1)
+    if b == 0:
+        return Fraction(0) if k > 0 else None
+    if b == -1:
+        return Fraction(1 if k % 2 == 0 else -1)
+    if max(b.numerator.bit_length(), b.denominator.bit_length()) * abs(k) <= 20000:
+        return b ** k
+    r = dec_pow(abs(b), Fraction(k))
+    if r is None:
+        return None
+    return -r if (b < 0 and k % 2) else r
+
+
+def term_values_exact(sp, pt, guard=False):
+    """exact value of every term; None when a term does not exist at the point (0 to a negative power) or - with
+    `guard` - when a factor or a partial product leaves [2^-900, 2^900] (overflow / underflow in the code's own
+    arithmetic is outside the oracle's rounding model)"""
     vals = []
     for c, d in sp:
         x = c
+        if guard and not inrange(c):
+            return None
         for v, e in d.items():
             b = pt[v]
             if b == 0 and e < 0:
                 return None
-            x *= b ** int(e) if e != 0 else 1
+            f = pow_int(b, int(e))
+            if f is None:
+                return None
+            x *= f
+            if guard and not (inrange(f) and inrange(x)):
+                return None
         vals.append(x)
     return vals
+
+
+def top_power_in_range(p, xs, extra=0):
+    """dense type: x^(highest position) stays inside [2^-900, 2^900] for every x of xs - zero coefficients included
+    (`sparse` leaves them out of long polynomials, but 0 * inf is NaN in the code's arithmetic)"""
+    top = len(p[2]) - 1 + extra
+    if top <= 0:
+        return True
+    for x in xs:
+        if x == 0:
+            continue
+        f = pow_int(Fraction(x), top)
+        if f is None or not inrange(f):
+            return False
+    return True
 
 
 def term_values_float(sp, pt):
@@ -328,6 +411,9 @@ def compare_values(ref, got, variables, rnd, what, rel_exact=4, extra_domain=())
 
 def central_difference(src, got, v, variables, rnd, what):
     """cross-check that does not presuppose the power rule: (f(x+h) - f(x-h)) / 2h on the source"""
+    # the truncation term h^2 f(3)/6 is modelled for moderate exponents only (the term-wise check is exact anyway)
+    if any(abs(e) > 40 for sp in (src, got) for _, d in sp for e in d.values()):
+        return None
     pts = pick_points(rnd, [src, got], variables, n=2)
     for pt in pts:
         if v not in pt:
@@ -414,6 +500,82 @@ def step_variable(p, step):
     return v, "ok"
 
 
+def close(got, want, ulps=2):
+    """got: float, want: exact rational: equal up to `ulps` roundings"""
+    return finite(got) and abs(Fraction(got) - want) <= ulps * U * abs(want)
+
+
+def check_dense_exact(src, got, what):
+    """dense type, every size: d_(k-1) = k c_k (one rounding)"""
+    cs, ds = src[2], got[2]
+    name = own_var(src)
+    for k in range(1, len(cs)):
+        c, d = cs[k], ds[k - 1]
+        if d == c * k:
+            continue
+        if not close(d, Fraction(c) * k):
+            return f"{what}: coefficient of {name}^{k - 1} is {d!r}, the power rule gives {k} * {c!r} = {c * k!r}"
+    return None
+
+
+def fmt_term(c, vs):
+    return f"{c!r}" + "".join(f" {n}^{e!r}" for n, e in vs)
+
+
+def expected_term(c, vs, v):
+    """power rule on one source term (no repeated names): (coefficient, [(name, power | ('minus1', p))])"""
+    out = []
+    p = None
+    for n, e in vs:
+        if n == v:
+            p = e
+            if e != 1:
+                out.append((n, ("minus1", e)))
+        else:
+            out.append((n, e))
+    return Fraction(c) * Fraction(p), sorted(out, key=lambda t: t[0])
+
+
+def term_matches(got, want):
+    gc, gvs = got
+    wc, wvs = want
+    if not close(gc, wc):
+        return False
+    gvs = sorted(gvs, key=lambda t: t[0])
+    if [n for n, _ in gvs] != [n for n, _ in wvs]:
+        return False
+    for (_, ge), (_, we) in zip(gvs, wvs):
+        if isinstance(we, tuple):
+            if not close(ge, Fraction(we[1]) - 1):
+                return False
+        elif not (ge == we):
+            return False
+    return True
+
+
+def check_terms_exact(src, got, v, what):
+    """sparse type: term by term - c p, power p - 1, the variable gone exactly when p = 1, the other factors
+    untouched, terms without the variable gone.  A result term whose coefficient would be 0 may be absent."""
+    with_v = [(c, vs) for c, vs in src[1] if any(n == v for n, _ in vs)]
+    if any(len({n for n, _ in vs}) != len(vs) for _, vs in with_v):
+        return None                      # a name twice in one term (not parser-made): values only
+    g = list(got[1])
+    j = 0
+    for k, (c, vs) in enumerate(with_v):
+        want = expected_term(c, vs, v)
+        if j < len(g) and term_matches(g[j], want):
+            j += 1
+        elif want[0] == 0:
+            continue
+        else:
+            have = fmt_term(*g[j]) if j < len(g) else "nothing"
+            return (f"{what}: source term {fmt_term(c, vs)} should become coefficient {float(want[0])!r} with "
+                    f"{v} lowered by one (and removed at power 0), the result has {have}")
+    if j < len(g):
+        return f"{what}: the result has the extra term {fmt_term(*g[j])}"
+    return None
+
+
 def check_deriv_step(src, step, seg, rnd):
     """src: polynomial (wire form) the step is applied to; seg: the implementation's answer segment"""
     v, expect = step_variable(src, step)
@@ -421,6 +583,9 @@ def check_deriv_step(src, step, seg, rnd):
     if seg[0] == "panic":
         return f"{what} panicked"
     if expect == "err":
+        if seg[0] != "err":
+            return (f"{what} on a polynomial in {src[2]} returned a polynomial although the variable to differentiate in "
+                    f"is ambiguous (TooManyVariables expected)")
         return None
     if seg[0] == "err":
         if expect == "ok":
@@ -442,6 +607,11 @@ def check_deriv_step(src, step, seg, rnd):
             return f"{what} changed the variable of the polynomial"
         if len(got[2]) != max(len(src[2]) - 1, 0):
             return f"{what}: {len(got[2])} coefficients from {len(src[2])}"
+        e = check_dense_exact(src, got, what)
+        if e:
+            return e
+        if len(src[2]) > BIG:
+            return None                   # the coefficient-wise check above is exact and complete
     else:
         e = wf_exact(got) if step[0] == "D" else usable(got)
         if e:
@@ -455,6 +625,9 @@ def check_deriv_step(src, step, seg, rnd):
         for _, vs in got[1]:
             if any(n == v and e0 == 0 for n, e0 in vs):
                 return f"{what}: a term of the result still carries {v}^0"
+        e = check_terms_exact(src, got, v, what)
+        if e:
+            return e
     ref = deriv_ref(ssp, v)
     variables = all_vars(ssp) | all_vars(gsp) | {v}
     err = compare_values(ref, gsp, variables, rnd, what, extra_domain=[ssp])
@@ -505,11 +678,17 @@ def check_final(p, req, seg):
             return None
     got = seg[1]
     if all_integer(sp):
-        vals = term_values_exact(sp, pt)
+        if len(sp) > BIG:
+            return None
+        if p[0] == "S":
+            xs = [Fraction(req["x"])] if "x" in req else [Fraction(val) for _, val in req["binds"] if finite(val)]
+            if not top_power_in_range(p, xs):
+                return None
+        vals = term_values_exact(sp, pt, guard=True)
         if vals is None:
             return None
         if not finite(got):
-            return None if any(abs(float(t)) > 1e300 for t in vals) else f"evaluation returned {got!r}"
+            return f"evaluation returned {got!r}, exact value {float(sum(vals))!r}"
         nt = len(vals)
         deg = max([abs(e) for _, d in sp for e in d.values()] + [0])
         nv = max([len(d) for _, d in sp] + [0])
@@ -520,19 +699,24 @@ def check_final(p, req, seg):
     else:
         try:
             vals = term_values_float(sp, pt)
+            # every factor must stay well inside the double range (the code's own products would over/underflow)
+            facs = [math.pow(float(pt[v]), float(e)) for _, d in sp for v, e in d.items()] + [float(c) for c, _ in sp]
         except (OverflowError, ValueError, ZeroDivisionError):
             return None
         s = math.fsum(vals)
-        if finite(s) and finite(got) and abs(s - got) > 1e-11 * math.fsum(abs(t) for t in vals) + 1e-300:
+        mags = [abs(t) for t in vals + facs if t != 0]
+        if not finite(s) or (mags and (max(mags) > 1e250 or min(mags) < 1e-250)):
+            return None
+        if not finite(got):
+            return f"evaluation of the result at {fmt_pt(pt)} returned {got!r}, expected {s!r}"
+        if abs(s - got) > 1e-11 * math.fsum(abs(t) for t in vals) + 1e-300:
             return f"evaluation of the result at {fmt_pt(pt)} returned {got!r}, expected {s!r}"
     return None
 
 
 def oracle(req, impl):
-    # polynomials at the parser's exponent limit (65 537 coefficients): exact evaluation at such degrees is out
-    # of reach of the rational oracle; these requests are decided by the bit-for-bit correspondence alone
-    if len(req) > 20000:
-        return None
+    # polynomials at the parser's exponent limit (65 537 coefficients) are judged coefficient-wise (exact) instead of by
+    # sampled values; their final evaluation is judged when the non-zero terms are few and in range
     try:
         r = parse_request(req)
     except Exception as e:            # a malformed corpus line is a framework error, not a finding
